@@ -28,6 +28,16 @@ CHECKS = {
    text="Held on every execution observed: absent or null => decoded field equals the default, present (including zero values) => document value kept.", ref="§4 C09"),
 }
 
+CHECKS.update({
+ "C01": dict(cat="exploration", tech="runtime monitor over real CLI runs: stderr fallback-warning monitor + go/parser + gofmt fixpoint + go/types (real export data) + build-constraint scan on the emitted bytes; sample cross-checked with go build; known defects attributed by trigger + neutraliser re-run",
+   text="Held on every successful generator run observed (about 1 000 quick / 22 000 thorough schemas x random option sets, hostile descriptions/titles/names, extension objects): every emitted file parses, is a gofmt fixpoint, type-checks against exactly its own imports and carries no build constraint. A diagnostic is attributed to a recorded finding only if neutralising that finding's trigger in the input makes the re-run clean.", ref="§4 C01",
+   note="Trusted base: go/parser, go/format, go/types and go build of the installed toolchain (the same that builds the CLI). Generator refusals are counted, not judged (C18). Exploration: feature combinations outside the generated space are missed."),
+ "C11": dict(cat="exploration", tech="runtime monitor: one document per subset of satisfied branches executed against compiled generated code, verdict and round trip vs reference model",
+   text="Held on every execution observed: allOf/anyOf of 1-4 object branches (inline/$ref) x every subset of satisfied branches; allOf accepts iff all, anyOf iff at least one; the all-branches document round-trips every branch's properties.", ref="§4 C11"),
+ "C17": dict(cat="exploration", tech="differential runtime monitor: the same document decoded by json.Unmarshal and yaml.Unmarshal (same text and block-style rendering) into the same generated type; verdict and re-marshalled value compared",
+   text="Held on every execution observed: valid and single-fault (required/bound/multipleOf/length/pattern/string-enum) documents get identical verdicts and identical decoded values through both paths; divergences are attributed to a recorded finding only when both paths follow their own defect-model prediction.", ref="§4 C17"),
+})
+
 NOT_YET = {}
 
 def main():
